@@ -56,12 +56,31 @@ type Op struct {
 	ID   int    `json:"id,omitempty"`
 	Iv   int    `json:"iv,omitempty"`  // ms
 	Lim  int    `json:"lim,omitempty"` // intervalFunc(c) = Iv for c < Lim, else 0
+	Ivs  []int  `json:"ivs,omitempty"`  // (when given) intervalFunc(c) = Ivs[c] ms for c < len, else Tail ms; hourMS = one hour
+	Tail int    `json:"tail,omitempty"`
 	IDs  []int  `json:"ids,omitempty"`
 	Trig int    `json:"trig,omitempty"` // iter: id whose prepare triggers Mid (-1 none)
 	Mid  []Op   `json:"mid,omitempty"`
 	G    int    `json:"g,omitempty"`
 	Keep bool   `json:"keep,omitempty"`
 	Err  bool   `json:"err,omitempty"`
+}
+
+const hourMS = 3_600_000
+
+// fn: the interval function of a "new" op as (list, tail) in ms
+func (o Op) fn() ([]int, int) {
+	if o.Ivs != nil || o.Tail != 0 {
+		return o.Ivs, o.Tail
+	}
+	if o.Lim >= 1000 {
+		return nil, o.Iv
+	}
+	l := make([]int, o.Lim)
+	for i := range l {
+		l[i] = o.Iv
+	}
+	return l, 0
 }
 
 type Script struct {
@@ -73,8 +92,8 @@ type Script struct {
 
 type genT struct {
 	n, id   int
-	iv      time.Duration
-	lim     uint64
+	ivs     []int // ms
+	tail    int   // ms
 	timer   *util.SimpleTimer
 	release chan [2]bool // keep, err
 	added   bool
@@ -88,6 +107,14 @@ type genT struct {
 	replaced   bool
 	queued     int   // prepare calls not yet followed by a callback start
 	jobGoid    int64 // goroutine of the last started callback (= its job)
+}
+
+// f: the interval function
+func (g *genT) f(c uint64) time.Duration {
+	if c < uint64(len(g.ivs)) {
+		return time.Duration(g.ivs[c]) * time.Millisecond
+	}
+	return time.Duration(g.tail) * time.Millisecond
 }
 
 type parkedRemove struct {
@@ -125,6 +152,7 @@ type forced struct {
 	midRan     bool
 	midSteps   []string
 	inNew      atomic.Bool
+	passAfterSet atomic.Bool // gmap.Set: let the timer loop do one pass right after the inner Set returned
 	curTargets map[int]bool // ids targeted by the stop op currently executed by the controller / mid
 	fails      []vh.Failure
 	parkedCB   map[int]*genT
@@ -158,7 +186,23 @@ func (m *gmap) GetOrCreate(k util.TimerID, f func(*util.SimpleTimer, bool) error
 	return m.in().GetOrCreate(k, f, c)
 }
 func (m *gmap) Set(k util.TimerID, f func(*util.SimpleTimer, bool) (*util.SimpleTimer, error)) (*util.SimpleTimer, bool, error) {
-	return m.in().Set(k, f)
+	v, created, err := m.in().Set(k, f)
+	if m.f.passAfterSet.Load() && goid() == m.f.ctrl {
+		m.f.passAfterSet.Store(false)
+		select {
+		case m.f.gate <- struct{}{}:
+			select {
+			case <-m.f.iterDone:
+			case <-time.After(2 * time.Second):
+				m.f.fail("timer-loop-blocked", "the timer loop's traverse (injected after Set) did not finish within 2s")
+				m.f.stuck = true
+			}
+		case <-time.After(2 * time.Second):
+			m.f.fail("timer-loop-blocked", "timer loop did not reach Traverse within 2s")
+			m.f.stuck = true
+		}
+	}
+	return v, created, err
 }
 func (m *gmap) Len() int                                 { return m.in().Len() }
 func (m *gmap) Empty()                                   { m.in().Empty() }
@@ -246,13 +290,10 @@ func newForced(sc *Script) *forced {
 	return f
 }
 
-func (f *forced) newGen(id, ivms, lim int) *genT {
-	g := &genT{n: len(f.gens), id: id, iv: time.Duration(ivms) * time.Millisecond, lim: uint64(lim), release: make(chan [2]bool, 1)}
+func (f *forced) newGen(id int, ivs []int, tail int) *genT {
+	g := &genT{n: len(f.gens), id: id, ivs: ivs, tail: tail, release: make(chan [2]bool, 1)}
 	ivf := func(c uint64) time.Duration {
-		var r time.Duration
-		if c < g.lim {
-			r = g.iv
-		}
+		r := g.f(c)
 		if d := f.daemon.Load(); d != 0 && d == goid() && f.midGoid.Load() == 0 {
 			// prepare() inside the gated traverse
 			f.mu.Lock()
@@ -286,8 +327,8 @@ func (f *forced) newGen(id, ivms, lim int) *genT {
 		if c > 0 && int(c) <= len(g.ends) {
 			base = g.ends[c-1]
 		}
-		if now.Before(base.Add(g.iv)) {
-			f.fail("before-interval", fmt.Sprintf("callback %d of timer object %d started %v after its base time, interval %v", c, g.n, now.Sub(base), g.iv))
+		if now.Before(base.Add(g.f(c))) {
+			f.fail("before-interval", fmt.Sprintf("callback %d of timer object %d (id %d) started %v after its base time (registration / end of callback %d), its interval(%d) is %v", c, g.n, g.id, now.Sub(base), int(c)-1, c, g.f(c)))
 		}
 		g.starts++
 		g.queued--
@@ -341,8 +382,9 @@ func cN(n int) string { return fmt.Sprintf("%d%%N", n) }
 // exec runs one controller-level operation (not iter) and returns its model steps
 func (f *forced) exec(o Op) []string {
 	switch o.Kind {
-	case "new":
-		g := f.newGen(o.ID, o.Iv, o.Lim)
+	case "new", "newt":
+		ivs, tail := o.fn()
+		g := f.newGen(o.ID, ivs, tail)
 		f.mu.Lock()
 		g.regAt = time.Now()
 		f.mu.Unlock()
@@ -357,7 +399,11 @@ func (f *forced) exec(o Op) []string {
 			}
 		}
 		f.mu.Unlock()
-		return []string{fmt.Sprintf("CNew %s %s %s", cN(o.ID), cN(o.Iv*1_000_000), cN(o.Lim))}
+		l := make([]string, len(ivs))
+		for i, x := range ivs {
+			l[i] = cN(x * 1_000_000)
+		}
+		return []string{fmt.Sprintf("CNewL %s %s %s", cN(o.ID), vh.List(l), cN(tail*1_000_000))}
 	case "stop", "stopothers", "stopall":
 		targets := map[int]bool{}
 		var steps []string
@@ -448,7 +494,7 @@ func (f *forced) shardOf(id int) int {
 func (f *forced) step(o Op) []string {
 	switch o.Kind {
 	case "iter":
-		time.Sleep(5 * time.Millisecond) // every interval used is <= 3 ms: everything idle is expired now
+		time.Sleep(5 * time.Millisecond) // every interval used is <= 3 ms (expired now) or one hour (never)
 		f.drain(0, 0)
 		f.mu.Lock()
 		f.prepared = nil
@@ -493,19 +539,55 @@ func (f *forced) step(o Op) []string {
 			steps = append(steps, "CRunStart "+cN(g))
 		}
 		return steps
+	case "newt":
+		// New with a pass of the timer loop injected right after the map's Set returned inside NewTimer (gmap.Set):
+		// the freshly stored timer must not be collected (its expiry must already be set).  Its first interval is one
+		// hour, everything else idle is expired (sleep): deterministic.
+		time.Sleep(5 * time.Millisecond)
+		f.drain(0, 0)
+		f.mu.Lock()
+		f.prepared = nil
+		f.trig, f.mid, f.midRan, f.midSteps = -1, nil, false, nil
+		f.mu.Unlock()
+		f.passAfterSet.Store(true)
+		steps := []string{"CTick " + cN(tickNS)}
+		steps = append(steps, f.exec(o)...)
+		f.passAfterSet.Store(false)
+		if f.stuck {
+			return nil
+		}
+		f.mu.Lock()
+		n := len(f.prepared)
+		f.mu.Unlock()
+		f.drain(waitJob, n)
+		for sh := 0; sh < max(f.shards, 1); sh++ {
+			for id := 0; id < nids; id++ {
+				if f.shardOf(id) == sh {
+					steps = append(steps, "CCollect "+cN(id))
+				}
+			}
+		}
+		for g := range f.gens {
+			steps = append(steps, "CRunStart "+cN(g))
+		}
+		return steps
 	case "release":
 		g := f.gens[o.G]
 		delete(f.parkedCB, o.G)
 		f.mu.Lock()
 		called := uint64(g.starts) // callbacks started so far = called+1
-		stop := !o.Keep || o.Err || called >= g.lim
+		stop := !o.Keep || o.Err || g.f(called) < 1
 		if stop {
 			g.endedStop = true
 		}
 		f.mu.Unlock()
 		g.release <- [2]bool{o.Keep, o.Err}
 		if stop {
+			before := len(f.parkedRM)
 			f.drain(waitJob, 1)
+			if len(f.parkedRM) == before {
+				f.fail("end-of-run-removal-missing", fmt.Sprintf("callback %d of timer object %d (id %d) ended with keep=%v err=%v next interval %v: the job did not remove the timer", called-1, g.n, g.id, o.Keep, o.Err, g.f(called)))
+			}
 		} else {
 			time.Sleep(200 * time.Microsecond)
 		}
@@ -614,7 +696,24 @@ func (f *forced) genOp(r *vh.Rand, removedOwners map[*parkedRemove]int) Op {
 		}
 		return 1000
 	}
-	newOp := func(ids []int) Op { return Op{Kind: "new", ID: ids[r.Intn(len(ids))], Iv: iv(), Lim: lim()} }
+	// interval functions: constant / cut off (self-stopping) as before, and index dependent ones: short then an hour,
+	// an hour first, growing, shrinking, self-stopping after k calls
+	pattern := func(o Op) Op {
+		switch r.Intn(10) {
+		case 0, 1:
+			o.Iv, o.Lim, o.Ivs, o.Tail = 0, 0, []int{iv()}, hourMS
+		case 2:
+			o.Iv, o.Lim, o.Ivs, o.Tail = 0, 0, []int{iv(), iv()}, hourMS
+		case 3:
+			o.Iv, o.Lim, o.Ivs, o.Tail = 0, 0, []int{hourMS}, iv()
+		case 4:
+			o.Iv, o.Lim, o.Ivs, o.Tail = 0, 0, []int{1, 3}, 2
+		case 5:
+			o.Iv, o.Lim, o.Ivs, o.Tail = 0, 0, []int{3, 1, 2}, 0
+		}
+		return o
+	}
+	newOp := func(ids []int) Op { return pattern(Op{Kind: "new", ID: ids[r.Intn(len(ids))], Iv: iv(), Lim: lim()}) }
 	all := []int{0, 1, 2, 3, 4, 5}
 	var cb []int
 	for n := range f.parkedCB {
@@ -626,7 +725,10 @@ func (f *forced) genOp(r *vh.Rand, removedOwners map[*parkedRemove]int) Op {
 		case x < 26:
 			// prefer re-using an id that has a parked callback / parked removal: the interesting case
 			if len(cb) > 0 && r.Chance(2, 3) {
-				return Op{Kind: "new", ID: f.gens[cb[r.Intn(len(cb))]].id, Iv: iv(), Lim: lim()}
+				return pattern(Op{Kind: "new", ID: f.gens[cb[r.Intn(len(cb))]].id, Iv: iv(), Lim: lim()})
+			}
+			if r.Chance(1, 5) {
+				return Op{Kind: "newt", ID: r.Intn(nids), Ivs: []int{hourMS}, Tail: iv()}
 			}
 			return newOp(all)
 		case x < 36:
@@ -723,7 +825,7 @@ func runForced(sc *Script) caseOut {
 		default:
 			o = sc.Ops[i]
 		}
-		if o.Kind == "new" {
+		if o.Kind == "new" || o.Kind == "newt" {
 			for n := range f.parkedCB {
 				if f.gens[n].id == o.ID {
 					out.sawReuse = true
@@ -750,7 +852,8 @@ func runForced(sc *Script) caseOut {
 			// liveness oracle on the final pass
 			f.mu.Lock()
 			for _, g := range f.gens {
-				live := g.added && !g.cancelled && !g.replaced && !g.endedStop && uint64(g.starts) < g.lim
+				nx := g.f(uint64(g.starts))
+				live := g.added && !g.cancelled && !g.replaced && !g.endedStop && nx >= 1 && nx <= 3*time.Millisecond
 				if _, parked := f.parkedCB[g.n]; live && !parked {
 					f.fail("live-timer-not-run", fmt.Sprintf("timer object %d (id %d): registered, never stopped, never replaced, callback never asked for removal, yet it did not run in the final pass", g.n, g.id))
 				}
@@ -786,6 +889,12 @@ func corpus() []*Script {
 		{Shards: 3, Ops: []Op{nw(0, 1, 1000), nw(1, 1, 1000), nw(2, 1, 1000), {Kind: "stopothers", IDs: []int{1}}, it, {Kind: "stopall"}, {Kind: "release", G: 1, Keep: true}, it}},
 		// replaced (not stopped) while queued
 		{Shards: 2, Ops: []Op{nw(0, 1, 1000), nw(1, 1, 1000), {Kind: "iter", Trig: 1, Mid: []Op{nw(0, 1, 1000)}}, {Kind: "release", G: 0, Keep: false}, {Kind: "jobremove", G: 0}, it}},
+		// interval function short then long: callback 1 must not start after the SHORT interval again
+		{Shards: 1, Ops: []Op{{Kind: "new", ID: 2, Ivs: []int{1}, Tail: hourMS}, it, {Kind: "release", G: 0, Keep: true}, it, it}},
+		// self-stopping interval function: interval(2) < 1 -> removed after callback 1
+		{Shards: 2, Ops: []Op{{Kind: "new", ID: 3, Ivs: []int{2, 1}, Tail: 0}, it, {Kind: "release", G: 0, Keep: true}, it, {Kind: "release", G: 0, Keep: true}, {Kind: "jobremove", G: 0}, it}},
+		// a pass of the timer loop right after the map's Set inside NewTimer: the new timer is not collected
+		{Shards: 2, Ops: []Op{nw(0, 1, 1000), {Kind: "newt", ID: 1, Ivs: []int{hourMS}, Tail: 1}, {Kind: "release", G: 0, Keep: true}, it}},
 		// interval < 1 at registration: ignored
 		{Shards: 1, Ops: []Op{nw(5, 1, 0), it}},
 	}
@@ -795,8 +904,8 @@ func corpus() []*Script {
 
 type freeGen struct {
 	n, id   int
-	iv      time.Duration
-	lim     uint64
+	ivs     []time.Duration // interval function: ivs[c] for c < len, else tail
+	tail    time.Duration
 	regAt   time.Time
 	added   bool
 	starts  []time.Time
@@ -806,6 +915,39 @@ type freeGen struct {
 	hasRem  bool
 	seq     int // order of the registration inside the map's critical section (intervalFunc(0) is called there)
 	reging  bool
+}
+
+func (g *freeGen) f(c uint64) time.Duration {
+	if c < uint64(len(g.ivs)) {
+		return g.ivs[c]
+	}
+	return g.tail
+}
+
+// freePattern: constant, cut off after k calls (self-stopping), short then long, long then short, growing
+func freePattern(r *vh.Rand) ([]time.Duration, time.Duration) {
+	ms := time.Millisecond
+	switch r.Intn(8) {
+	case 0, 1:
+		return nil, time.Duration(r.Range(2, 6)) * ms
+	case 2:
+		return []time.Duration{2 * ms}, time.Duration(r.Range(10, 14)) * ms
+	case 3:
+		return []time.Duration{time.Duration(r.Range(8, 12)) * ms}, 2 * ms
+	case 4:
+		return []time.Duration{2 * ms, 5 * ms, 9 * ms}, 12 * ms
+	case 5:
+		return []time.Duration{3 * ms, 2 * ms, 2 * ms}, 0
+	case 6:
+		return []time.Duration{2 * ms, 8 * ms}, 0
+	default:
+		k := r.Range(0, 3)
+		l := make([]time.Duration, k)
+		for i := range l {
+			l[i] = time.Duration(r.Range(2, 6)) * ms
+		}
+		return l, 0
+	}
 }
 
 type stopSpan struct {
@@ -850,10 +992,10 @@ func runFree(seed uint64, size int, fixed bool, dur time.Duration) (fails []vh.F
 	var stopping atomic.Bool
 	var quiet atomic.Bool // no more New / Stop: only let things run
 
-	var register func(r *vh.Rand, id int, iv time.Duration, lim uint64, reuseDepth int) *freeGen
-	register = func(r *vh.Rand, id int, iv time.Duration, lim uint64, reuseDepth int) *freeGen {
+	var register func(r *vh.Rand, id int, ivs []time.Duration, tail time.Duration, reuseDepth int) *freeGen
+	register = func(r *vh.Rand, id int, ivs []time.Duration, tail time.Duration, reuseDepth int) *freeGen {
 		mu.Lock()
-		g := &freeGen{n: len(gens), id: id, iv: iv, lim: lim}
+		g := &freeGen{n: len(gens), id: id, ivs: ivs, tail: tail}
 		gens = append(gens, g)
 		sub := vh.NewRand(r.U64())
 		mu.Unlock()
@@ -866,13 +1008,11 @@ func runFree(seed uint64, size int, fixed bool, dur time.Duration) (fails []vh.F
 				}
 				mu.Unlock()
 			}
-			if c < lim {
-				return iv
-			}
-			return 0
+			return g.f(c)
 		}
 		cb := func(ctx context.Context, c uint64) (bool, error) {
 			now := time.Now()
+			iv := g.f(c)
 			mu.Lock()
 			g.starts = append(g.starts, now)
 			base := g.regAt
@@ -880,7 +1020,7 @@ func runFree(seed uint64, size int, fixed bool, dur time.Duration) (fails []vh.F
 				base = g.ends[c-1]
 			}
 			if now.Before(base.Add(iv)) {
-				fail("before-interval", fmt.Sprintf("callback %d of timer object %d (id %d) started %v after its base time, interval %v", c, g.n, id, now.Sub(base), iv))
+				fail("before-interval", fmt.Sprintf("callback %d of timer object %d (id %d) started %v after its base time (registration / end of callback %d), its interval(%d) is %v", c, g.n, id, now.Sub(base), int(c)-1, c, iv))
 			}
 			if g.hasRem && now.Sub(g.removed) > 250*time.Millisecond {
 				fail("started-after-stop", fmt.Sprintf("callback %d of timer object %d (id %d) started %v after its whenRemoved ran", c, g.n, id, now.Sub(g.removed)))
@@ -896,7 +1036,7 @@ func runFree(seed uint64, size int, fixed bool, dur time.Duration) (fails []vh.F
 			switch {
 			case x < 25 && reuseDepth < 6:
 				// id reuse from inside the callback, then (mostly) ask for own removal
-				ng := register(sub, id, time.Duration(2+y)*time.Millisecond, 1000, reuseDepth+1)
+				ng := register(sub, id, nil, time.Duration(2+y)*time.Millisecond, reuseDepth+1)
 				_ = ng
 				mu.Lock()
 				reuse++
@@ -908,7 +1048,7 @@ func runFree(seed uint64, size int, fixed bool, dur time.Duration) (fails []vh.F
 				time.Sleep(time.Duration(y) * time.Millisecond)
 			}
 			mu.Lock()
-			if !keep || c+1 >= lim {
+			if !keep || g.f(c+1) < 1 {
 				g.stopRes = true
 			}
 			g.ends = append(g.ends, time.Now())
@@ -960,7 +1100,11 @@ func runFree(seed uint64, size int, fixed bool, dur time.Duration) (fails []vh.F
 	// ids 0..3: owned by worker w = id%2 (only that worker registers under them); ids 4..7: registered once here, afterwards
 	// re-registered only from inside the callback of the timer that holds the id
 	for id := 4; id < fnids; id++ {
-		register(r0, id, time.Duration(r0.Range(2, 5))*time.Millisecond, 1000, 0)
+		ivs, tail := freePattern(r0)
+		if len(ivs) == 0 && tail == 0 {
+			tail = 3 * time.Millisecond
+		}
+		register(r0, id, ivs, tail, 0)
 	}
 	if fixed {
 		// unknown id is refused
@@ -986,11 +1130,8 @@ func runFree(seed uint64, size int, fixed bool, dur time.Duration) (fails []vh.F
 				switch x := rw.Intn(100); {
 				case x < 45:
 					id := 2*rw.Intn(2) + w
-					lim := uint64(1000)
-					if rw.Chance(1, 4) {
-						lim = uint64(rw.Range(0, 3))
-					}
-					register(rw, id, time.Duration(rw.Range(2, 6))*time.Millisecond, lim, 0)
+					ivs, tail := freePattern(rw)
+					register(rw, id, ivs, tail, 0)
 				case x < 75:
 					k := rw.Range(1, 2)
 					set := map[int]bool{}
@@ -1056,6 +1197,13 @@ func runFree(seed uint64, size int, fixed bool, dur time.Duration) (fails []vh.F
 			}
 		}
 		mu.Unlock()
+		mu.Lock()
+		for _, g := range gens {
+			if g.added && g.stopRes && !g.hasRem && !super(g) {
+				pending++ // its job still owes the end-of-run removal
+			}
+		}
+		mu.Unlock()
 		if pending == 0 || time.Now().After(deadline) {
 			break
 		}
@@ -1064,11 +1212,14 @@ func runFree(seed uint64, size int, fixed bool, dur time.Duration) (fails []vh.F
 	mu.Lock()
 	for g, n := range mark {
 		if len(g.starts) <= n && !g.hasRem && !g.stopRes && !super(g) {
-			fail("live-timer-not-run", fmt.Sprintf("timer object %d (id %d, interval %v): latest registered under its id, never removed, never asked for removal, did not run within 3 s", g.n, g.id, g.iv))
+			fail("live-timer-not-run", fmt.Sprintf("timer object %d (id %d, intervals %v then %v): latest registered under its id, never removed, never asked for removal, did not run within 3 s", g.n, g.id, g.ivs, g.tail))
 		}
 	}
 	for _, g := range gens {
 		starts += len(g.starts)
+		if g.added && g.stopRes && !g.hasRem && !super(g) {
+			fail("end-of-run-removal-missing", fmt.Sprintf("timer object %d (id %d, intervals %v then %v): a callback returned keep=false or its next interval is < 1 after %d calls, it is the latest registered under its id, yet it was never removed", g.n, g.id, g.ivs, g.tail, len(g.ends)))
+		}
 	}
 	mu.Unlock()
 	stopping.Store(true)
@@ -1082,18 +1233,14 @@ func main() {
 	o := vh.ParseFlags()
 	res := vh.NewResult("A: forced schedules on the real SimpleTimers (gated traverse, parked callbacks and job removals), random operations new/stop/stopothers/stopall/iter(+operations inside the traverse)/release/jobremove over 6 ids, 1..3 shards; after every operation registry, removed objects and started callbacks are compared with the Coq model; non-trivial = at least one callback started. B: free-running SimpleTimers (real constructors, sizes 1/2/8, fixed ids) with concurrent New/StopTimers/StopOthers and id reuse from inside callbacks; oracle = wall-clock lower bound, unjustified removals, lost successors")
 	if o.Replay != "" {
-		var rp struct {
-			Script
-			FreeReplay
-		}
-		if err := vh.ReadReplay(o.Replay, &rp); err == nil {
-			if rp.Free {
-				fl, st, _ := runFree(rp.FreeReplay.Seed, rp.Size, rp.Fixed, 80*time.Millisecond)
-				fmt.Printf("replay free run: starts=%d failures=%v\n", st, fl)
-			} else {
-				out := runForced(&rp.Script)
-				fmt.Printf("replay forced: failures=%v\n%s\n", out.fails, out.term)
-			}
+		var fr FreeReplay
+		var sc Script
+		if err := vh.ReadReplay(o.Replay, &fr); err == nil && fr.Free {
+			fl, st, _ := runFree(fr.Seed, fr.Size, fr.Fixed, 80*time.Millisecond)
+			fmt.Printf("replay free run: starts=%d failures=%v\n", st, fl)
+		} else if err := vh.ReadReplay(o.Replay, &sc); err == nil {
+			out := runForced(&sc)
+			fmt.Printf("replay forced: failures=%v\n%s\n", out.fails, out.term)
 		}
 	}
 	cases := &vh.Cases{Import: "From MV Require Import C34.Model.", Type: "case", CheckFn: "check", Shard: 60}
